@@ -170,10 +170,18 @@ def docArgOf : Obj → Except DefErr DocArg
   | .cons (.sym n) (.cons d .nil) => .ok { name := n, default := d }
   | _ => .error .typeError
 
+def docArgsOf : List Obj → Except DefErr (List DocArg)
+  | [] => .ok []
+  | e :: es =>
+    match docArgOf e, docArgsOf es with
+    | .ok d, .ok ds => .ok (d :: ds)
+    | .error x, _ => .error x
+    | _, .error x => .error x
+
 def defLambda (ll : Obj) : Except DefErr (List DocArg) :=
   match ll.toList? with
   | none => .error .typeError
-  | some es => es.mapM docArgOf
+  | some es => docArgsOf es
 
 /-- the parameters of a documented list: every entry that is not a marker -/
 def paramNames (doc : List DocArg) : List String :=
